@@ -360,8 +360,11 @@ def oracle_check(ctx, where, isa, model, recs, replay_extra, stats):
 
 
 # --------------------------------------------------------------------------- instruction texts
-X86_MEMS = ["(%rax)", "8(%rax)", "(%rax,%rbx)", "(%rax,%rbx,8)", "-16(%rbp,%rcx,4)", "lab1(%rip)", "64(,%rdx,8)", "0x20(%r8)"]
-A64_MEMS = ["[x1]", "[x1, #8]", "[x1, x2]", "[x1, x2, lsl #3]", "[x1, #16]!", "[x1], #16", "[sp, #32]", "[x3, x4, lsl #1]"]
+X86_MEMS = ["(%rax)", "8(%rax)", "(%rax,%rbx)", "(%rax,%rbx,8)", "-16(%rbp,%rcx,4)", "lab1(%rip)", "64(,%rdx,8)", "0x20(%r8)",
+            # numeric and symbolic displacement on the same base / index / scale: different table rows (`offset: imd` vs identifier)
+            "sym(%rax)", "16(%rax,%rbx,8)", "tab(%rax,%rbx,8)"]
+A64_MEMS = ["[x1]", "[x1, #8]", "[x1, x2]", "[x1, x2, lsl #3]", "[x1, #16]!", "[x1], #16", "[sp, #32]", "[x3, x4, lsl #1]",
+            "[x1, :lo12:sym]", "[x1, #:lo12:sym]"]
 
 
 def memory_variants(rng, isa, line):
